@@ -110,7 +110,13 @@ def run(tier, seed):
             fn = mod.functions[fname]
             for c, what in dm:
                 nsite += 1
-                rep.check(rid, fn.file.endswith("lha_arch_unix.c"), "%s called in %s" % (what, fn.cname), c.where(),
+                inside = fn.file.endswith("lha_arch_unix.c")
+                # outside the arch layer only calls that cannot act through a symbolic link at the final path component are tolerated
+                # (remove/unlink/rmdir/mkdir/rename..., creators that fail on an existing name): what they touch is the named entry itself,
+                # and R1/R1b keep every mutator away from the read-only commands.  Anything that can follow a link (chmod, utime, chown,
+                # truncating opens, fopen for writing) or starts a process stays confined to the wrappers, whose discipline R3/R6c decide.
+                tolerated = (not inside) and what in NEVER_FOLLOW and what not in ("symlink", "symlinkat", "link", "linkat", "rename", "renameat")
+                rep.check(rid, inside or tolerated, "%s called in %s%s" % (what, fn.cname, " (cannot follow a link at the final component)" if tolerated else ""), c.where(),
                           "filesystem mutator outside the arch layer", function=fn.cname, obj=what)
         for fn in mod.defined():
             for c in fn.calls("fopen"):
@@ -311,6 +317,29 @@ def run(tier, seed):
             rep.check(rid, not others, "no other function makes a deferred symlink current", nf.file, None, function="curr_file_type", obj="others")
             # the curr_file==NULL test happens after the else-branch assigned curr_file from input/dir stack: the loaded value that is
             # tested must be loaded after those stores (no store to curr_file between the load and the DEFERRED store except the deferred one)
+        # ---- R4d: what a deferred link is created through ------------------------------------------------------------------------
+        # "Longest path first" orders deferred links among themselves, but the path of a deferred link is resolved when it is created:
+        # if one of its directory components is a link made by this run (a harmless link at first, re-declared later in the archive
+        # with a dangerous target and, being longer, created first), the unlink + symlink of the shorter one land wherever that points.
+        # Creating a deferred link is safe only behind a test of its directory components (lstat / readlink / O_NOFOLLOW walk).
+        rid = rep.rule("R4d", "a deferred symlink is created only after its directory components were examined for links made by this run "
+                              "(a test whose callee reaches lstat / readlink / fstatat / openat), since the dangerous links created before it may lie on its path", 1)
+        if es and NORMAL is not None:
+            PROBES = {"lstat", "lstat64", "__lxstat", "__lxstat64", "readlink", "readlinkat", "fstatat", "fstatat64", "__fxstatat", "openat", "openat64", "realpath"}
+            probe_fns = {f.name for f in mod.defined() if any(c.op == "call" and c.callee in PROBES for c in f.insts())}
+            F = ctx.facts(es)
+            for c in es.calls("lha_arch_symlink"):
+                guarded = False
+                for fact in F.at_inst(c):
+                    if fact[0] == "in":
+                        continue
+                    dx = es.defn(Matcher(es).strip(fact[1]))
+                    if dx is not None and not dx.is_param and dx.op == "call" and dx.callee and (cg.reachable([dx.callee]) | {dx.callee}) & (probe_fns | PROBES):
+                        guarded = True
+                rep.check(rid, guarded, "extract_symlink: lha_arch_symlink for a deferred entry runs behind a test of the link path's directory components", c.where(),
+                          None if guarded else "no such test: with entries  real/ ; dddddddd -> real ; s -> dddddddd ; s/x -> ABS ; dddddddd -> OUTSIDE  the link dddddddd (longer, so first) "
+                          "is re-created pointing outside, and creating s/x then unlinks and replaces OUTSIDE/x", function="extract_symlink", obj="deferred-parent-components")
+
         # ---- R5: leading '/' stripping ---------------------------------------------------------------------------------
         rid = rep.rule("R5", "file_full_path appends header->path / header->filename only from a position whose first byte is not '/'", 2)
         # decided on the inlined view of src/extract.c, so that the skip loop may live in file_full_path itself or in a helper it calls
